@@ -524,7 +524,14 @@ class DiffXReader(object):
         if encoding and not keep_bytes:
             # We know what this content was encoded with. We can now decode
             # it.
-            content = content.decode(encoding)
+            try:
+                content = content.decode(encoding)
+            except UnicodeDecodeError as e:
+                raise DiffXParseError(
+                    'The content could not be decoded as "%s": %s'
+                    % (encoding, e),
+                    linenum=self._linenum)
+
             newline = newline.decode(encoding)
 
         # Validate that the content ends in a newline. This is to ensure that
